@@ -251,9 +251,9 @@ class Report:
                     unstable += 1
                     continue
                 if sig not in a:
-                    print('INTERNAL: witness does not reproduce in isolation sig=%r case=%r got=%r'
+                    print('UNCONFIRMED: witness does not reproduce in isolation sig=%r case=%r got=%r'
                           % (sig, case, sorted(a)))
-                    internal = True
+                    unstable += 1
                     continue
             confirmed.append((sig, count, case, detail))
         by_id = {e['id']: e for e in self.findings.entries}
